@@ -371,6 +371,10 @@ def core_programs():
         bounds=lb)
     add("for_continue", "continue in for", [("let", "s", I(0)), ("for", "i", I(0), a, [("if", B("==", V("i"), b), [("continue",)], None), ("set", "s", B("+", V("s"), I(1)))]),
                                             ("ret", V("s"))], bounds=lb)
+    add("for_continue_then_break", "for body with a continue that ends in break", [("let", "s", I(0)), ("for", "i", I(0), a, [("if", B("==", V("i"), b), [("continue",)], None), ("set", "s", B("+", V("s"), B("+", V("i"), I(1)))), ("break",)]), ("ret", V("s"))], bounds=lb)
+    add("for_break_and_continue", "break and continue in one for", [("let", "s", I(0)), ("for", "i", I(0), a, [("if", B("==", V("i"), b), [("break",)], None), ("if", c, [("continue",)], None), ("set", "s", B("+", V("s"), I(1)))]), ("ret", V("s"))], bounds=lb)
+    add("for_continue_and_break_arms", "continue and break in the two arms of one if", [("let", "s", I(0)), ("for", "i", I(0), a, [("set", "s", B("+", V("s"), I(1))), ("if", B("==", V("i"), b), [("continue",)], [("break",)])]), ("ret", V("s"))], bounds=lb)
+    add("for_nested_inner_last_break", "inner for ends the outer body and breaks", [("let", "s", I(0)), ("for", "i", I(0), a, [("set", "s", B("+", V("s"), I(1))), ("for", "j", I(0), b, [("if", B("==", V("j"), I(1)), [("break",)], None), ("set", "s", B("+", V("s"), I(10)))])]), ("ret", V("s"))], bounds=lb)
     add("for_nested", "nested for", [("let", "s", I(0)), ("for", "i", I(0), a, [("for", "j", I(0), b, [("set", "s", B("+", V("s"), B("*", V("i"), V("j"))))])]), ("ret", V("s"))],
         bounds=lb)
     g = ("g", ["p", "q"], [("out", V("p")), ("ret", B("-", V("p"), V("q")))])
